@@ -157,6 +157,10 @@ pub struct Scenario {
     pub wait_timeout_ms: Option<u32>,
     pub tasks: Vec<Vec<Op>>,
     pub faults: Vec<Fault>,
+    /// the connector's task outlives the connection (it has more to do than to drive it), as a
+    /// user supplied `Connect` implementation may
+    #[serde(default)]
+    pub lingering_conn_task: bool,
 }
 
 pub const SLOTS: usize = 2;
@@ -286,6 +290,7 @@ pub fn generate(rng: &mut Rng, thorough: bool) -> Scenario {
         wait_timeout_ms: if rng.permille(300) { Some(100) } else { None },
         tasks,
         faults,
+        lingering_conn_task: rng.permille(150),
     }
 }
 
@@ -334,6 +339,7 @@ pub fn grid() -> Vec<Scenario> {
                         wait_timeout_ms: None,
                         tasks: vec![core.clone()],
                         faults: k.iter().map(|k| Fault { conn: 0, at, kind: *k }).collect(),
+                        lingering_conn_task: false,
                     });
                 }
             }
@@ -344,6 +350,11 @@ pub fn grid() -> Vec<Scenario> {
 
 pub fn shrink_candidates(sc: &Scenario) -> Vec<Scenario> {
     let mut out = Vec::new();
+    if sc.lingering_conn_task {
+        let mut c = sc.clone();
+        c.lingering_conn_task = false;
+        out.push(c);
+    }
     // drop a whole client task
     if sc.tasks.len() > 1 {
         for t in 0..sc.tasks.len() {
@@ -437,10 +448,11 @@ pub fn shape(sc: &Scenario) -> String {
         .collect();
     let faults: Vec<String> = sc.faults.iter().map(|f| format!("{}@c{}m{}", f.kind.tag(), f.conn, f.at)).collect();
     format!(
-        "method={} max={} tasks=[{}] faults=[{}]",
+        "method={} max={} tasks=[{}] faults=[{}]{}",
         sc.method.tag(),
         sc.max_size,
         tasks.join(" | "),
-        faults.join(",")
+        faults.join(","),
+        if sc.lingering_conn_task { " lingering_conn_task" } else { "" }
     )
 }
